@@ -123,6 +123,7 @@ def collection_history(s, cidx):
 
 
 def run(s):
+    K.suite_workload(s)
     q = s.tier == 'quick'
     for h in range(120 if q else 4000):
         if s.mine(h):
